@@ -371,12 +371,26 @@ func init() {
 	reg("C01_NFTTransferDeliver", C01_NFTTransferDeliver)
 	reg("C01_MultiTransferDeliver1", C01_MultiTransferDeliver1)
 	reg("C01_MultiTransferDeliver2", C01_MultiTransferDeliver2)
+	reg("C01_TransferSelf", C01_TransferSelf)
 	reg("C01_TransferRefund", C01_TransferRefund)
 	reg("C01_NFTTransferRefund", C01_NFTTransferRefund)
 	reg("C01_MultiTransferRefund", C01_MultiTransferRefund)
 }
 
-func C01_TransferSend()    { sendCheck(scnTransfer(sendOpt)) }
+func C01_TransferSend() { sendCheck(scnTransfer(sendOpt)) }
+
+// C01_TransferSelf: an ESDTTransfer an account addresses to itself (the same account object is
+// sender and destination): debit and credit cancel, so the holding is unchanged, nothing is in
+// flight and nothing else is written.
+func C01_TransferSelf() {
+	o := sendOpt
+	o.Presence = 4
+	s := scnTransfer(o)
+	sendCheck(s)
+	if s.Err == nil {
+		verif.Reach("self-transfer-ok", true)
+	}
+}
 func C01_NFTTransferSend() { sendCheck(scnNFTTransfer(sendOpt)) }
 func C01_MultiTransferSend1() {
 	o := sendOpt
